@@ -163,7 +163,7 @@ pub fn run(run: &RunInfo, c03: bool) -> Summary {
     let distinct = acc.set_len("values");
     let (rule, required) = if c03 {
         (
-            format!("55 shipped types x all canonical values with <= {k} deviating fields (5.2 alphabets) + all-present rows + sizing rows (every variable-length leaf sized 0..=300, 998..1000, 1068, 4096, 65000); each value: reference bytes -> real decoder must give exactly the named fields, real encoder must give the identical bytes. distinct_nontrivial = distinct (type, reference bytes) pairs"),
+            format!("55 shipped types x all canonical values with <= {k} deviating fields (5.2 alphabets) + all-present rows + sizing rows (every variable-length leaf sized 0..=300 and to 19 larger sizes around 512, 768, 1000, 1280, 4096, 32768, 65280); each value: reference bytes -> real decoder must give exactly the named fields, real encoder must give the identical bytes. distinct_nontrivial = distinct (type, reference bytes) pairs"),
             vec!["every field of every type is non-baseline in some canonical value".to_string(), "extended APDU length header used".to_string()],
         )
     } else {
@@ -185,7 +185,7 @@ pub fn run(run: &RunInfo, c03: bool) -> Summary {
             "field alphabets of DESIGN.md 5.2, not full value ranges; at most k simultaneously deviating fields except the all-present rows".into(),
             if c03 { "the layout table restates the pinned commit's layout for fields no captured blob contains (DESIGN.md 5.3)".into() } else { "3 types with private fields (SelectLanguage, tlv::StatusEnquiry, StatusEnquiry) are constructed by decoding reference bytes".into() },
         ],
-        bounds: json!({"deviating_fields_k": k, "vec_lengths": "0..=3", "sizing": "0..=300 + {998,999,1000,1068,4096,65000}"}),
+        bounds: json!({"deviating_fields_k": k, "vec_lengths": "0..=3", "sizing": "0..=300 + 19 sizes up to 65280"}),
         caps_hit: vec![],
         evaluations_counter: "evaluations".into(),
         acc,
